@@ -667,7 +667,7 @@ ExecStmt(s, st, P) ==
               ELSE LET cur == i.st.env[VLookupIdx(i.st.env, s.name)][s.name] IN
                    IF cur.t = "dict" THEN SetVar(i.st, s.name, DictPut(cur, i.v, v.v))
                    ELSE LET j == NormIndex(Len(cur.xs), i.v.iv) IN
-                        IF j = -1 THEN [i.st EXCEPT !.sig = "err", !.err = "UNSPECIFIED: list assignment index out of range"]
+                        IF j = -1 THEN [i.st EXCEPT !.sig = "err", !.err = ErrListIndex(i.v.iv, Len(cur.xs))]     \* the documented IndexError, as for reads
                         ELSE SetVar(i.st, s.name, ListV([cur.xs EXCEPT ![j + 1] = v.v]))
     [] s.k = "setfield" ->      \* path.f = e / path.f <op>= e : the right-hand side, then the store into the place
          LET v == EvalE(IF s.op = "" THEN s.e ELSE [k |-> "bin", op |-> s.op, l |-> s.target, r |-> s.e], st, P) IN
